@@ -410,6 +410,11 @@ impl Search {
 
             self.board.unmake_move();
 
+            // The child may have been cut short and returned a dummy score: don't use or cache it
+            if !self.is_running() || self.limits_exceeded(start) {
+                return 0;
+            }
+
             // Move is too good, opponent will not allow the game to reach this position
             if score >= beta {
                 TRANSPOSITION_TABLE
